@@ -34,6 +34,27 @@ def recipe(c: Check):
         for name in ("NFWD", "NREWRITEHOST", "NSETHDR", "NRESPHDR", "NXFFIN", "NXFFMULTI", "NHOP", "NUNCLEANQ", "NOVERRIDE", "NERR504", "NERR404"):
             if cnt.get(name, 0) <= 0:
                 c.broken.append(dict(kind="coverage", name="driver http never reached branch %s" % name, detail=str(cnt)))
+    st = c.run_driver("plugin", q(c.tier, 80, 800), shards=q(c.tier, 4, 16))
+    if st and (c.cov.get("coq_counters") or {}).get("plugin"):
+        cp = c.cov["coq_counters"]["plugin"]
+        for name in ("NH2H", "NH2HS", "NHS2H", "NHS2HS"):
+            if cp.get(name, 0) <= 0:
+                c.broken.append(dict(kind="coverage", name="driver plugin never exercised %s" % name, detail=str(cp)))
+    st = c.run_driver("sys", q(c.tier, 90, 600), shards=q(c.tier, 6, 16))
+    if st and (c.cov.get("coq_counters") or {}).get("sys"):
+        cs = c.cov["coq_counters"]["sys"]
+        for name in ("NSYSFWD", "NSYSCHAIN", "NSYSHS2H", "NSYSHS2HS", "NSYSERR504", "NSYSERR404", "NUPGRADE", "NCONNECT"):
+            if cs.get(name, 0) <= 0:
+                c.broken.append(dict(kind="coverage", name="driver sys never exercised %s" % name, detail=str(cs)))
+    # findings observed by the drivers: reported as KNOWN-FINDING when the lead has listed their key, as notes otherwise
+    listed = {k["key"] for k in c.known_findings() if k["property"] == PID}
+    for drv, dist in (c.cov.get("distribution") or {}).items():
+        for k, v in (dist or {}).items():
+            if k.startswith("finding:") and not k.endswith(":not-reproduced") and v:
+                if k in listed:
+                    c.failures.append(dict(key=k, driver=drv, what=k, case="driver %s observed it %d times" % (drv, v)))
+                else:
+                    c.notes.append("observed (reported to the lead, not listed in KNOWN_FINDINGS): %s x%d" % (k, v))
     return c.finish(
         rule="http driver: real vhost.HTTPReverseProxy behind a net/http server built as server/service.go does; raw-socket user "
              "(generated methods, percent-encoded paths, raw queries incl. ';', '?' alone and broken escapes, multi-valued / mixed-case / "
